@@ -18,21 +18,26 @@ pub struct AdvCase {
     /// fields whose value was replaced (kinds), for the non-trivial rules
     pub touched: Vec<FieldKind>,
     pub base: usize,
+    /// big-tables stage: the same file with the table in ascending order (reference for the
+    /// relative CPU-time check of C07)
+    pub baseline: Option<std::sync::Arc<Vec<u8>>>,
 }
 
 impl Serialize for AdvCase {
     fn serialize<S: Serializer>(&self, s: S) -> Result<S::Ok, S::Error> {
-        let mut st = s.serialize_struct("AdvCase", 3)?;
+        let mut st = s.serialize_struct("AdvCase", 4)?;
         st.serialize_field("desc", &self.desc)?;
         st.serialize_field("len", &self.bytes.len())?;
         st.serialize_field("hex", &crate::engine::hex(&self.bytes))?;
+        st.serialize_field("baseline_hex", &self.baseline.as_ref().map(|b| crate::engine::hex(b)))?;
         st.end()
     }
 }
 
 pub fn case_from_json(v: &serde_json::Value) -> Option<AdvCase> {
     let hex = v.get("hex")?.as_str()?;
-    Some(AdvCase { bytes: crate::engine::unhex(hex), desc: v.get("desc").and_then(|d| d.as_str()).unwrap_or("").to_string(), touched: vec![], base: 0 })
+    let baseline = v.get("baseline_hex").and_then(|h| h.as_str()).map(|h| std::sync::Arc::new(crate::engine::unhex(h)));
+    Some(AdvCase { bytes: crate::engine::unhex(hex), desc: v.get("desc").and_then(|d| d.as_str()).unwrap_or("").to_string(), touched: vec![], base: 0, baseline })
 }
 
 pub struct Base {
@@ -86,10 +91,10 @@ pub fn kitchen_sink(variant: u32) -> Movie {
         handler: if variant % 5 == 4 { cc("mdta") } else { cc("mdir") },
         quicktime: variant % 2 == 1,
         items: Some(vec![
-            MetaItem { typ: [0xa9, b'n', b'a', b'm'], type_code: 1, payload: b"Title".to_vec(), pre: vec![], post: vec![] },
-            MetaItem { typ: [0xa9, b'd', b'a', b'y'], type_code: 1, payload: b"2021".to_vec(), pre: vec![], post: vec![] },
-            MetaItem { typ: cc("covr"), type_code: 13, payload: vec![1, 2, 3, 4, 5], pre: vec![], post: vec![] },
-            MetaItem { typ: cc("desc"), type_code: 1, payload: b"Sum".to_vec(), pre: vec![(cc("mean"), vec![0; 4])], post: vec![] },
+            MetaItem { typ: [0xa9, b'n', b'a', b'm'], type_code: 1, payload: b"Title".to_vec(), pre: vec![], post: vec![], locale: 0 },
+            MetaItem { typ: [0xa9, b'd', b'a', b'y'], type_code: 1, payload: b"2021".to_vec(), pre: vec![], post: vec![], locale: 0 },
+            MetaItem { typ: cc("covr"), type_code: 13, payload: vec![1, 2, 3, 4, 5], pre: vec![], post: vec![], locale: 0 },
+            MetaItem { typ: cc("desc"), type_code: 1, payload: b"Sum".to_vec(), pre: vec![(cc("mean"), vec![0; 4])], post: vec![], locale: 0 },
         ]),
         hdlr_last: false,
         udta_extra: vec![], large_seed: 0, hdlr_name: String::new(),
@@ -190,10 +195,10 @@ pub fn bases(ctx: &Ctx, n_generated: usize) -> Vec<Base> {
             handler: cc("mdir"),
             quicktime: v == 1,
             items: Some(vec![
-                MetaItem { typ: [0xa9, b'n', b'a', b'm'], type_code: if v == 2 { 13 } else { 1 }, payload: vec![], pre: vec![], post: vec![] },
-                MetaItem { typ: [0xa9, b'd', b'a', b'y'], type_code: day.0, payload: day.1, pre: vec![], post: vec![] },
-                MetaItem { typ: cc("covr"), type_code: 0, payload: vec![], pre: vec![], post: vec![] },
-                MetaItem { typ: cc("desc"), type_code: 21, payload: vec![0xff, 0xfe], pre: vec![], post: vec![] },
+                MetaItem { typ: [0xa9, b'n', b'a', b'm'], type_code: if v == 2 { 13 } else { 1 }, payload: vec![], pre: vec![], post: vec![], locale: 0 },
+                MetaItem { typ: [0xa9, b'd', b'a', b'y'], type_code: day.0, payload: day.1, pre: vec![], post: vec![], locale: 0 },
+                MetaItem { typ: cc("covr"), type_code: 0, payload: vec![], pre: vec![], post: vec![], locale: 0 },
+                MetaItem { typ: cc("desc"), type_code: 21, payload: vec![0xff, 0xfe], pre: vec![], post: vec![], locale: 0 },
             ]),
             hdlr_last: v == 0,
             udta_extra: vec![], large_seed: 0, hdlr_name: String::new(),
@@ -314,7 +319,7 @@ pub fn run_enumerated(ctx: &mut Ctx, bases: &[Base], weight: &dyn Fn(FieldKind) 
                 }
                 let mut bytes = b.bytes.clone();
                 write_field(&mut bytes, f, v);
-                each(ctx, &AdvCase { bytes, desc: format!("{}: {} := {:#x}", b.name, fname(f), v), touched: vec![f.kind], base: bi });
+                each(ctx, &AdvCase { bytes, desc: format!("{}: {} := {:#x}", b.name, fname(f), v), touched: vec![f.kind], base: bi, baseline: None });
             }
         }
     }
@@ -337,7 +342,7 @@ pub fn run_enumerated(ctx: &mut Ctx, bases: &[Base], weight: &dyn Fn(FieldKind) 
                 }
                 let mut bytes = b.bytes.clone();
                 write_field(&mut bytes, f, v);
-                each(ctx, &AdvCase { bytes, desc: format!("{}: word {} := {:#x}", b.name, fname(f), v), touched: vec![FieldKind::Word], base: bi });
+                each(ctx, &AdvCase { bytes, desc: format!("{}: word {} := {:#x}", b.name, fname(f), v), touched: vec![FieldKind::Word], base: bi, baseline: None });
             }
         }
     }
@@ -383,7 +388,7 @@ pub fn run_enumerated(ctx: &mut Ctx, bases: &[Base], weight: &dyn Fn(FieldKind) 
                             let mut bytes = b.bytes.clone();
                             write_field(&mut bytes, fa, va);
                             write_field(&mut bytes, fb, vb);
-                            each(ctx, &AdvCase { bytes, desc: format!("{}: {} := {:#x}, {} := {:#x}", b.name, fname(fa), va, fname(fb), vb), touched: vec![fa.kind, fb.kind], base: bi });
+                            each(ctx, &AdvCase { bytes, desc: format!("{}: {} := {:#x}, {} := {:#x}", b.name, fname(fa), va, fname(fb), vb), touched: vec![fa.kind, fb.kind], base: bi, baseline: None });
                         }
                     }
                 }
@@ -415,7 +420,7 @@ pub fn run_enumerated(ctx: &mut Ctx, bases: &[Base], weight: &dyn Fn(FieldKind) 
                         let mut bytes = b.bytes.clone();
                         write_field(&mut bytes, fa, mask(fa, va));
                         write_field(&mut bytes, fb, mask(fb, vb));
-                        each(ctx, &AdvCase { bytes, desc: format!("{}: {} := {:#x}, {} := {:#x}", b.name, fname(fa), mask(fa, va), fname(fb), mask(fb, vb)), touched: vec![fa.kind, fb.kind], base: bi });
+                        each(ctx, &AdvCase { bytes, desc: format!("{}: {} := {:#x}, {} := {:#x}", b.name, fname(fa), mask(fa, va), fname(fb), mask(fb, vb)), touched: vec![fa.kind, fb.kind], base: bi, baseline: None });
                     }
                 }
             }
@@ -466,7 +471,7 @@ pub fn run_enumerated(ctx: &mut Ctx, bases: &[Base], weight: &dyn Fn(FieldKind) 
                             bytes[x.start..x.start + 4].copy_from_slice(&(claimed.min(u32::MAX as u64) as u32).to_be_bytes());
                         }
                     }
-                    each(ctx, &AdvCase { bytes, desc: format!("{}: {} := {:#x} with the sizes of the {} enclosing box(es) raised by {}", b.name, fname(f), v, k, extra), touched: vec![f.kind, FieldKind::Size], base: bi });
+                    each(ctx, &AdvCase { bytes, desc: format!("{}: {} := {:#x} with the sizes of the {} enclosing box(es) raised by {}", b.name, fname(f), v, k, extra), touched: vec![f.kind, FieldKind::Size], base: bi, baseline: None });
                 }
             }
         }
@@ -580,7 +585,7 @@ pub fn run_enumerated(ctx: &mut Ctx, bases: &[Base], weight: &dyn Fn(FieldKind) 
                         }
                     }
                 }
-                each(ctx, &AdvCase { bytes, desc: format!("{}: {} box {} at {}", b.name, op, pb.name(), pb.start), touched: vec![FieldKind::Size], base: bi });
+                each(ctx, &AdvCase { bytes, desc: format!("{}: {} box {} at {}", b.name, op, pb.name(), pb.start), touched: vec![FieldKind::Size], base: bi, baseline: None });
             }
         }
     }
@@ -668,12 +673,92 @@ pub fn run_enumerated(ctx: &mut Ctx, bases: &[Base], weight: &dyn Fn(FieldKind) 
                 pad.extend_from_slice(b"free");
                 pad.resize(chain_len + 8, 0);
                 out.splice(top_start..top_start, pad);
-                each(ctx, &AdvCase { bytes: out, desc: format!("{}: chain of {} minimal {} boxes whose child {} is stretched over the rest of the chain (copy = {} bytes)", b.name, r, c.name(), k.name(), plen), touched: vec![FieldKind::Size], base: bi });
+                each(ctx, &AdvCase { bytes: out, desc: format!("{}: chain of {} minimal {} boxes whose child {} is stretched over the rest of the chain (copy = {} bytes)", b.name, r, c.name(), k.name(), plen), touched: vec![FieldKind::Size], base: bi, baseline: None });
             }
         }
     }
     ctx.extra.insert("chain_cases".into(), serde_json::json!(idx));
     ctx.extra.insert("chain_length".into(), serde_json::json!(r));
+    // ---- big tables: every table box in turn holds tens of thousands of entries in an ordered,
+    // reversed, constant, alternating or scrambled pattern (work that is quadratic in a table's
+    // length only shows at this scale; honest counts, so the size checks pass) ----
+    ctx.stage("big-tables");
+    let n_entries: &[usize] = if ctx.quick() { &[100_000] } else { &[100_000, 160_000] };
+    let mut idx = 0u64;
+    {
+        use crate::refmp4::{movie::build, Node, Part};
+        fn replace_leaf(nodes: &mut [Node], typ: &[u8; 4], payload: &[u8]) -> bool {
+            for n in nodes.iter_mut() {
+                if &n.typ == typ && n.children().count() == 0 {
+                    n.parts = vec![Part::Raw(payload.to_vec())];
+                    return true;
+                }
+                let mut kids: Vec<&mut Node> = n.children_mut().collect();
+                for k in kids.iter_mut() {
+                    if replace_leaf(std::slice::from_mut(*k), typ, payload) {
+                        return true;
+                    }
+                }
+            }
+            false
+        }
+        // (box, bytes before the entry count after version/flags, words per entry, flags)
+        let tables: [(&[u8; 4], usize, usize, u32); 10] = [(b"stts", 0, 2, 0), (b"ctts", 0, 2, 0), (b"stss", 0, 1, 0), (b"stsc", 0, 3, 0), (b"stsz", 4, 1, 0), (b"stco", 0, 1, 0), (b"co64", 0, 2, 0), (b"elst", 0, 3, 0), (b"trun", 0, 4, 0x000f00), (b"trun", 0, 1, 0x000100)];
+        for (src, frag) in [(kitchen_sink(0), false), (kitchen_sink_frag(0), true)] {
+            let tree0 = build(&src).tree;
+            for (typ, pre, words, flags) in tables.iter() {
+                if (*typ == b"trun") != frag {
+                    continue;
+                }
+                for &n in n_entries {
+                    for pattern in 0..5u32 {
+                        let my = idx;
+                        idx += 1;
+                        if !ctx.enter(my) {
+                            continue;
+                        }
+                        let render = |pattern: u32| -> Option<Vec<u8>> {
+                        let mut payload: Vec<u8> = Vec::with_capacity(8 + pre + n * words * 4);
+                        payload.extend_from_slice(&flags.to_be_bytes());
+                        payload.extend(std::iter::repeat(0u8).take(*pre));
+                        payload.extend_from_slice(&(n as u32).to_be_bytes());
+                        let mut x = 0x9e37_79b9u64 ^ my;
+                        for i in 0..n {
+                            let v: u32 = match pattern {
+                                0 => i as u32 + 1,
+                                1 => (n - i) as u32,
+                                2 => 1,
+                                3 => if i % 2 == 0 { 1 } else { n as u32 },
+                                _ => {
+                                    x = crate::engine::splitmix(x);
+                                    1 + (x % n as u64) as u32
+                                }
+                            };
+                            for w in 0..*words {
+                                // keep counts/deltas of multi-word entries small except the first word
+                                payload.extend_from_slice(&(if w == 0 { v } else { 1 + (v % 3) }).to_be_bytes());
+                            }
+                        }
+                        let mut tree = tree0.clone();
+                        if !replace_leaf(&mut tree, typ, &payload) {
+                            return None;
+                        }
+                        let mut bytes = Vec::new();
+                        for t in &tree {
+                            t.render_into(&mut bytes);
+                        }
+                        Some(bytes)
+                        };
+                        let Some(bytes) = render(pattern) else { continue };
+                        let baseline = if pattern == 0 { None } else { render(0).map(std::sync::Arc::new) };
+                        let pname = ["ascending", "descending", "constant", "alternating", "scrambled"][pattern as usize];
+                        each(ctx, &AdvCase { bytes, desc: format!("{}: {} with {} {} entries ({} words each)", if frag { "sinkfrag0" } else { "sink0" }, String::from_utf8_lossy(&typ[..]), n, pname, words), touched: vec![FieldKind::Count], base: 0, baseline });
+                    }
+                }
+            }
+        }
+    }
+    ctx.extra.insert("big_table_cases".into(), serde_json::json!(idx));
     // ---- prefixes of a few files ----
     ctx.stage("prefixes");
     let mut idx = 0u64;
@@ -687,7 +772,7 @@ pub fn run_enumerated(ctx: &mut Ctx, bases: &[Base], weight: &dyn Fn(FieldKind) 
             if !ctx.enter(my) {
                 continue;
             }
-            each(ctx, &AdvCase { bytes: b.bytes[..cut].to_vec(), desc: format!("{}: prefix of {} bytes", b.name, cut), touched: vec![], base: bi });
+            each(ctx, &AdvCase { bytes: b.bytes[..cut].to_vec(), desc: format!("{}: prefix of {} bytes", b.name, cut), touched: vec![], base: bi, baseline: None });
         }
     }
 }
